@@ -12,7 +12,8 @@ META = {
             "definition keyword and its fallback consumes exactly one token; B3 every brace owner's loop stops at "
             "`}` and at end of input; B4 no site that can run directly after a `}` consumed outside every brace region "
             "(before the parser is back at the dispatcher) can consume a token that starts a definition (`@`, `pub`, "
-            "`opaque` or a dispatch keyword, all read from statement()/attributes()). One obligation per consumption "
+            "`opaque` or a dispatch keyword, all read from statement()/attributes()); B5 nor report an error there (the "
+            "error would carry the range of the next definition's first token). One obligation per consumption "
             "site / owner / keyword.",
     "explanation": "For damage that keeps a body's braces balanced and adds no opener, the only way the parser can "
                    "touch a token of a following definition is that a construct nested in the body consumes the `}` of "
@@ -23,7 +24,8 @@ META = {
                    "final `}` arrives with no region open; engine P marks that state and B4 requires that whatever consumes "
                    "the next token is the dispatcher. This decides closing-brace ownership and the restart after a stray "
                    "closer (necessary conditions), not the behaviour.",
-    "not_decided": "that the reported error ranges lie inside the damaged region; isolation under damage that adds openers.",
+    "not_decided": "that every damage is reported at all; error ranges other than 'not on the next definition's first token after a stray closer'; "
+                   "isolation under damage that adds openers.",
     "trusted_base": ["rustc MIR", "engine P's leaf-primitive model (checked by C02/M)"],
     "assumptions": ["look-ahead beyond the current token is arbitrary"],
 }
@@ -132,6 +134,10 @@ def run(F, res, tier):
            "so the top-level loop resynchronises at the next definition keyword",
            len(bumps) == 1 and guarded and not loops_in_fallback, where=st.loc(),
            how="%d bump site(s) in the fallback, eof-guarded: %s" % (len(bumps), guarded))
+    np = sorted(set(R.get("nonprogress_kinds", {}).get("syntax::parser::statement", [])) - {"EOF"})
+    res.ob("B2", "statement/always-consumes", "whatever the current token is (end of input aside), statement() consumes at least one token, so the "
+           "top-level loop can neither stall on a token nor leave it to be re-read forever", not np, where=st.loc(),
+           how="engine P: no context of statement() returns without progress" if not np else "returns without consuming when the token is %s" % np)
     # pub / attributes are optional prefixes handled before the dispatch
     pre = [callee(t2) for bb2, t2 in st.calls() if st.dominates(bb2, b)]
     res.ob("B2", "statement/prefixes", "attributes and `pub` are consumed before the dispatch, so `pub fn`/`@external fn` restart too",
@@ -171,6 +177,20 @@ def run(F, res, tier):
                how=("may consume %d kinds there, none of %s" % (len(v["after_stray"]), sorted(defstart))) if not bad else
                "consumes %s of the following definition; call chain %s" % (bad, v["stray_ctx"]))
     res.analysed["sites_running_after_a_stray_closer"] = n_after
+    # ---- B5: no error is attached to the first token of the following definition
+    n_err = 0
+    for key, v in sorted(R.get("stray_err_sites", {}).items()):
+        n_err += 1
+        name = v["fn"].rsplit("::", 1)[-1]
+        bad = sorted(set(v["kinds"]) & defstart)
+        res.ob("B5", "%s/%s%s/%s" % (name, v["callee"], ("(" + v["karg"] + ")") if v["karg"] else "", key.rsplit("|", 1)[-1]),
+               "directly after a `}` consumed outside every brace region, and before the parser is back at the dispatcher, this "
+               "site never reports an error while the current token starts a definition (Parser::error uses the current "
+               "token's range: the error would lie inside the untouched definition)",
+               not bad, where="crates/syntax/src/parser.rs:%d" % v["line"],
+               how=("may report errors at %d kinds there, none of them a definition start" % len(v["kinds"])) if not bad else
+               "reports an error at %s, the first token of the following definition; call chain %s" % (bad, v["ctx"]))
+    res.analysed["error_sites_running_after_a_stray_closer"] = n_err
 
 
 def thorough(F, res):
